@@ -859,7 +859,12 @@ func (ix *Index) populateDeleteClaim(ctx context.Context, cl schema.Claim, vr *j
 		log.Print(fmt.Errorf("no valid target for delete claim %v", br))
 		return nil
 	}
+	// This runs before ReceiveBlob takes the index lock, and with a corpus
+	// GetBlobMeta reads the corpus' maps, which other receives modify
+	// under that lock.
+	ix.RLock()
 	meta, err := ix.GetBlobMeta(ctx, target)
+	ix.RUnlock()
 	if err != nil {
 		if errors.Is(err, os.ErrNotExist) {
 			if err := ix.noteNeeded(br, target); err != nil {
